@@ -668,6 +668,29 @@ func genEventsOnce(rng *rand.Rand, c *gCfg) ([]cmd.VerifCollectEvent, *dataDesc)
 	return evs, d
 }
 
+var csvRefRe = regexp.MustCompile(`'\.\./csv/([^']*)'`)
+
+// missingCSV: the data files the scripts plot must be files the collector
+// wrote (the two sides build the names separately).
+func missingCSV(files map[string]string, csv []string) []string {
+	have := map[string]bool{}
+	for _, f := range csv {
+		have[f] = true
+	}
+	seen := map[string]bool{}
+	var missing []string
+	for _, name := range []string{"plot.gp", "lastplot.gp"} {
+		for _, m := range csvRefRe.FindAllStringSubmatch(files[name], -1) {
+			if !have[m[1]] && !seen[m[1]] {
+				seen[m[1]] = true
+				missing = append(missing, m[1])
+			}
+		}
+	}
+	sort.Strings(missing)
+	return missing
+}
+
 func runCollectCase(c *gCfg, evs []cmd.VerifCollectEvent, d *dataDesc) (*plotCase, string) {
 	var moods []cmd.VerifMoodPeriod
 	var acts []cmd.VerifActChange
@@ -685,6 +708,7 @@ func runCollectCase(c *gCfg, evs []cmd.VerifCollectEvent, d *dataDesc) (*plotCas
 	if pc != nil {
 		pc.Events = evs
 		pc.CSV = csv
+		pc.Missing = missingCSV(out.Files, csv)
 	}
 	return pc, msg
 }
@@ -1002,6 +1026,7 @@ type plotCase struct {
 	Cfg       string
 	Events    []cmd.VerifCollectEvent `json:",omitempty"`
 	CSV       []string                `json:",omitempty"`
+	Missing   []string                `json:",omitempty"` // csv files a script names that the collector did not write
 	Data      *dataDesc
 	RepeatAct int
 	Out       cmd.VerifPlotOutput
@@ -1318,6 +1343,17 @@ func main() {
 			}
 		}
 	}
+	missingCases := 0
+	for _, c := range ccases {
+		if len(c.Missing) > 0 {
+			missingCases++
+		}
+	}
+	for _, e := range e2e {
+		if e.Err == "" && len(e.Missing) > 0 {
+			missingCases++
+		}
+	}
 	e2eOk := 0
 	for _, e := range e2e {
 		if e.Err == "" {
@@ -1325,6 +1361,7 @@ func main() {
 		}
 	}
 	vh.WriteJSON(*out, "summary.json", map[string]interface{}{
+		"missing_csv_cases": missingCases,
 		"plot": len(cases), "collect": len(ccases), "collect_verdict_only_boxes": verdictOnly, "mood": len(moodCases), "e2e": len(e2e), "e2e_completed": e2eOk,
 		"unusable_configurations": len(genErrs), "distinct_nontrivial": nontrivial, "stats": stats, "samples": samples,
 	})
@@ -1334,6 +1371,7 @@ func main() {
 // end-to-end plays through the real binary
 
 type e2eCase struct {
+	Missing []string `json:",omitempty"`
 	Name    string
 	Cfg     string
 	Dir     string `json:"-"`
@@ -1602,6 +1640,7 @@ func runOneE2E(bin string, sp e2eSpec) *e2eCase {
 		rep = "(Some " + vh.Z(fToUs(r["StartTime"].(float64))) + ")"
 		numRepeats = int(r["NumRepeats"].(float64))
 	}
+	ec.Missing = missingCSV(ec.Files, ec.CSV)
 	// reconstruct the collected state from the csv files
 	cg := sp.cfg
 	actorHas, varHas, auditHas, obsHas := map[string]bool{}, map[string]bool{}, map[string]bool{}, map[string]bool{}
